@@ -16,3 +16,9 @@ package schemas
 //@   errdrop Close: closing a file opened for reading
 //@ func fileExists
 //@   errdrop os.Stat: the error IS the answer (exists or not)
+
+// allOf is a conjunction: every branch takes part in the merge (a branch that
+// only lists `required`, say, still constrains the result).
+//@ func MergeTypes
+//@   props C04 C11
+//@   every-iteration-calls mergo.Merge
